@@ -173,7 +173,10 @@ def run_harnesses(groups, repo, workdir, tier="quick", seed=0):
             results[n], details[n], stats[n] = cached[n]["result"], cached[n]["details"], cached[n]["stats"]
     res["cached"] = [n for n in names if n in cached]
     if todo:
-        r = run_kani(todo, repo, workdir, timeout_per=int(os.environ.get("VERIF_HARNESS_TIMEOUT", "900" if tier == "quick" else "1800")))
+        # the thorough tier runs the memory-hungry harnesses: fewer parallel CBMC processes (14 at once were measured to
+        # get some of them killed for lack of memory, which shows up as an undetermined "Failure")
+        r = run_kani(todo, repo, workdir, timeout_per=int(os.environ.get("VERIF_HARNESS_TIMEOUT", "900" if tier == "quick" else "1800")),
+                     jobs=None if tier == "quick" else int(os.environ.get("VERIF_JOBS_THOROUGH", "6")))
         res["cmd"] = r["cmd"]
         data = r["data"]
         if data is None:
